@@ -209,6 +209,51 @@ Section Drivers.
     - intro s0. destruct (driver_step_eq s0) as [H1 H2]. congruence.
   Qed.
 
+  (* ---- tracked / untracked bookkeeping and initialisation ---- *)
+  (* the population the engine builds its event indexes (and the clock update) from is the WHOLE table, untracked
+     simulants included, whatever the class of the context *)
+  Lemma pop_index_full c s : pop_index current c s = labels (rows s).
+  Proof. reflexivity. Qed.
+
+  Lemma labels_filter_map (p : srow -> bool) (f : srow -> srow) :
+    (forall r, p (f r) = p r) -> (forall r, lbl (f r) = lbl r) ->
+    forall l, labels (filter p (map f l)) = labels (filter p l).
+  Proof.
+    intros Hp Hl. induction l as [|r l IH]; simpl; [reflexivity|].
+    rewrite Hp. destruct (p r); simpl; [rewrite Hl|]; rewrite IH; reflexivity.
+  Qed.
+
+  (* untracking a simulant removes it from no event index *)
+  Lemma untracked_stay_in_index c s ls t :
+    active_at (untrack s ls) (pop_index current c (untrack s ls)) t = active_at s (pop_index current c s) t.
+  Proof.
+    rewrite !pop_index_full. unfold untrack, active_at. simpl.
+    set (f := fun r : srow => if zmem (lbl r) ls then {| lbl := lbl r; nxt := nxt r; stp := stp r; trk := false |} else r).
+    assert (Hl : forall r, lbl (f r) = lbl r) by (intro r; unfold f; destruct (zmem (lbl r) ls); reflexivity).
+    assert (Hlab : labels (map f (rows s)) = labels (rows s)).
+    { unfold labels. rewrite map_map. apply map_ext. exact Hl. }
+    rewrite Hlab. destruct (labels (rows s)) eqn:El; [reflexivity|]. rewrite <- El.
+    destruct (indiv s); [|reflexivity].
+    apply labels_filter_map; [|exact Hl].
+    intro r. unfold in_idx, due, f. destruct (zmem (lbl r) ls); reflexivity.
+  Qed.
+
+  Lemma initialize_class v c1 c2 n s : explicit_untracked v = true ->
+    initialize req v c1 n s = initialize req v c2 n s.
+  Proof. intros Hv. unfold initialize. rewrite (pop_index_explicit v c1 c2 _ Hv). reflexivity. Qed.
+
+  (* the whole life of a run: InteractiveContext.setup (= setup + initialize_simulants) then InteractiveContext.run()
+     versus initialize_simulants then SimulationContext.run() *)
+  Theorem whole_run_equiv n fuel s :
+    match initialize req current Interactive n s with
+    | Ok s0 => run_interactive react req current fuel s0 | Rejected e => Rejected e | OutOfFuel => OutOfFuel end
+    = match initialize req current Plain n s with
+      | Ok s0 => run_loop (step_run react req current) fuel s0 | Rejected e => Rejected e | OutOfFuel => OutOfFuel end.
+  Proof.
+    rewrite (initialize_class current Interactive Plain n s eq_refl).
+    destruct (initialize req current Plain n s) as [s0| |]; try reflexivity. apply run_until_eq_run.
+  Qed.
+
   Theorem run_for_is_run_until d fuel s :
     run_for react req current d fuel s = run_until react req current (T s + d) fuel s.
   Proof. reflexivity. Qed.
@@ -309,6 +354,17 @@ Definition wit_FC : sim_state :=
 Lemma step_eq_refuted_before_FC :
   exists react req s, step_interactive react req before_FC s <> step_manual react req before_FC s.
 Proof. exists no_react, (fun _ _ => 1), wit_FC. vm_compute. discriminate. Qed.
+
+(* the two classes' DEFAULT populations do differ - which is why the engine must not rely on the default *)
+Lemma default_population_differs : exists s, get_population Plain None s <> get_population Interactive None s.
+Proof. exists wit_FC. vm_compute. discriminate. Qed.
+(* ... and before a70d8de6 initialisation itself depended on the class as soon as somebody was untracked *)
+Definition wit_init : sim_state :=
+  {| T := 0; S := 1; E := 9; m := 1; indiv := true;
+     rows := [ {| lbl := 0; nxt := 0; stp := 5; trk := false |} ]; snooze := [] |}.
+Lemma initialize_class_refuted_before_FC :
+  exists req s, initialize req before_FC Plain 1 s <> initialize req before_FC Interactive 1 s.
+Proof. exists (fun _ _ => 2), wit_init. vm_compute. discriminate. Qed.
 
 Definition wit_FB : sim_state :=
   {| T := 0; S := 1; E := 10; m := 1; indiv := true;
